@@ -9,8 +9,8 @@ TraceNext ==
   /\ LET ev == T[ti] IN
      IF ev.e = "Reset" THEN last' = 0 /\ pos' = 0 /\ latched' = 0 /\ clean' = TRUE
      ELSE /\ Decode(ev.s)
-          /\ ev.c = ((latched' \div 4) % CntMod)          \* rotenc_count
-          /\ ev.c14 = ((latched' \div 4) % C14Mod)        \* rotenc_count14
+          /\ (ev.q = 1 \/ (/\ ev.c = ((latched' \div 4) % CntMod)          \* rotenc_count   (q = 1: nobody read after this decode)
+                           /\ ev.c14 = ((latched' \div 4) % C14Mod)))     \* rotenc_count14
 TraceSpec == TraceInit /\ [][TraceNext]_<<vars, ti>>
 TraceAccepted ==
   LET d == TLCGet("stats").diameter IN
